@@ -1,4 +1,92 @@
-/- dsmodel_req: model driver stub (filled in when the family is built). -/
-def main (_args : List String) : IO UInt32 := do
-  IO.eprintln "dsmodel_req: not built yet"
-  return 2
+/- dsmodel_req: `req` = line protocol (one observation per op), `enum` = whole coin tree of a short history,
+   `selftest` = the section-size schedule of the float code satisfies `SecOK` for every k the constructor can produce. -/
+import DSModel.Req.Driver
+import DSModel.DriverLoop
+import DSGen.Req
+open DS DS.Req
+
+def reqTun : Tun :=
+  { minK := DSGen.req_MIN_K, initSections := DSGen.req_INIT_NUM_SECTIONS, multiplier := DSGen.req_MULTIPLIER,
+    lazy := DSGen.req_LAZY_COMPRESSION }
+
+def reqRse : RseConsts :=
+  { fixedNum := DSGen.req_FIXED_RSE_FACTOR_num, fixedDen := DSGen.req_FIXED_RSE_FACTOR_den,
+    relNum := DSGen.req_REL_RSE_num, relDen := DSGen.req_REL_RSE_den }
+
+partial def readAll (h : IO.FS.Stream) (acc : Array (List String)) : IO (Array (List String)) := do
+  let line ← h.getLine
+  if line.isEmpty then return acc
+  let w := (line.trimAscii.toString.splitOn " ").filter (· ≠ "")
+  if w.isEmpty || (w.head!.startsWith "#") then readAll h acc else readAll h (acc.push w)
+
+def insertStr (x : String) : List String → List String
+  | [] => [x]
+  | y :: t => if x ≤ y then x :: y :: t else y :: insertStr x t
+
+def enumMain : IO UInt32 := do
+  let stdin ← IO.getStdin
+  let lines ← readAll stdin #[]
+  let mut maxFlips := 12
+  let mut ops : Array Op := #[]
+  for w in lines do
+    match w with
+    | ["maxflips", n] => maxFlips := n.toNat?.getD 12
+    | _ => match parseOp w with
+      | some (some op) => ops := ops.push op
+      | _ => pure ()
+  let used := truncateOps reqTun secF32 ops.toList maxFlips
+  let f0 := (run reqTun secF32 used []).2.used
+  IO.println s!"H ops={used.length} flips0={f0}"
+  let leaves := enumLeaves reqTun secF32 used [] #[] (2 ^ (maxFlips + 1))
+  let sorted := leaves.qsort (· < ·)
+  for l in sorted do IO.println l
+  return 0
+
+/-- ghost classification of a short history (names a bias finding; never decides pass/fail) -/
+def classifyMain : IO UInt32 := do
+  let stdin ← IO.getStdin
+  let lines ← readAll stdin #[]
+  let mut maxFlips := 12
+  let mut ops : Array Op := #[]
+  for w in lines do
+    match w with
+    | ["maxflips", n] => maxFlips := n.toNat?.getD 12
+    | _ => match parseOp w with
+      | some (some op) => ops := ops.push op
+      | _ => pure ()
+  let used := truncateOps reqTun secF32 ops.toList maxFlips
+  let r := run reqTun secF32 used []
+  IO.println s!"oddconst={boolStr r.2.oddConst} ops={used.length} flips={r.2.used}"
+  return 0
+
+/-- `SecOK reqTun secF32` by execution: for every k the constructor can produce (`effectiveK`, all k0 < 65536 give the even values
+in [max(MIN_K,…), 254]) `ne (float k) = k`, and along the WHOLE schedule r_{j+1} = r_j / sqrtf(2) (followed until it reaches its
+fixed point 0): if `ne r_{j+1} ≥ MIN_K` then `ne r_j ≤ 2 · ne r_{j+1}` -/
+def selftest : IO UInt32 := do
+  let mut bad := 0
+  let mut steps := 0
+  let mut ks : Array Nat := #[]
+  for k0 in [0:65536] do
+    let k := effectiveK reqTun k0
+    if !ks.contains k then ks := ks.push k
+  for k in ks do
+    let mut r := secF32.ofNat k
+    if secF32.ne r != k then bad := bad + 1
+    for _ in [0:600] do
+      let r' := secF32.next r
+      steps := steps + 1
+      if secF32.ne r' ≥ reqTun.minK then
+        if 2 * secF32.ne r' < secF32.ne r then bad := bad + 1
+      r := r'
+    -- fixed point reached: the remaining (infinitely many) points of the schedule are this one
+    if !(secF32.next r == r) then bad := bad + 1
+  IO.println s!"selftest ks={ks.size} steps={steps} bad={bad}"
+  return (if bad == 0 then 0 else 1)
+
+def main (args : List String) : IO UInt32 := do
+  match args with
+  | ["req"] => runDriver ({} : DState Float32) (stepLine reqTun secF32 reqRse)
+  | ["enum"] => enumMain
+  | ["selftest"] => selftest
+  | ["classify"] => classifyMain
+  | _ => IO.eprintln "usage: dsmodel_req req|enum|selftest"; return 2
